@@ -100,6 +100,7 @@ type model struct {
 	goaways  []h2kit.GoAway
 	data     map[uint32]int // data octets per stream
 	foreign  []string       // frames that arrived inside a continued header block
+	debug    bool           // expected side: the relay runs with EnableDebugLogs
 }
 
 func pingData(v uint64) [8]byte {
@@ -377,6 +378,19 @@ func classes(c Case) []string {
 	if c.CWin.Mode == "none" || c.SWin.Mode == "none" {
 		set["no-window-updates-at-all"] = true
 	}
+	if c.CWin.Mode == "settings" || c.SWin.Mode == "settings" {
+		set["window-opened-by-settings-only"] = true
+	}
+	if c.Debug {
+		set["debug-logs-on"] = true
+	}
+	for _, f := range all {
+		for _, fl := range f.Fields {
+			if fl.S {
+				set["never-indexed-field"] = true
+			}
+		}
+	}
 	for _, f := range all {
 		if f.T == "D" && f.N > 16384 {
 			set["data-frame-above-16384"] = true
@@ -423,7 +437,7 @@ func nontrivial(c Case) bool {
 
 // compare checks one direction. dir is "c2s" or "s2c"; blocked says whether the
 // direction has the headers-behind-blocked-data shape.
-func compare(dir string, want, got *model, wantAcks, gotAcks int, blocked, early, silent bool) kit.Verdict {
+func compare(dir string, want, got *model, wantAcks, gotAcks int, blocked, early bool, mode string) kit.Verdict {
 	var v kit.Verdict
 	var ids []uint32
 	seen := map[uint32]bool{}
@@ -459,7 +473,15 @@ func compare(dir string, want, got *model, wantAcks, gotAcks int, blocked, early
 					if g[i].Err == "" {
 						what = fieldDiff(w[i].Fields, g[i].Fields)
 					}
-					if blocked {
+					// only the values of never-indexed fields differ: not an HPACK state problem
+					sensitive := g[i].Err == "" && len(g[i].Fields) == len(w[i].Fields)
+					for k := 0; sensitive && k < len(w[i].Fields); k++ {
+						a, b := w[i].Fields[k], g[i].Fields[k]
+						sensitive = a == b || (a.S && a.N == b.N)
+					}
+					if want.debug && sensitive {
+						v.Addf("C08/header-fields/never-indexed-field-with-debug-logs-on/receiver-decodes-other-fields", "%s stream %d item %d (%v): %s", dir, s, i, w[i], what)
+					} else if blocked {
 						v.Addf("C08/header-fields/block-queued-behind-window-blocked-data/receiver-decodes-other-fields", "%s stream %d item %d (%v): %s", dir, s, i, w[i], what)
 					} else {
 						v.Addf("C08/header-fields/"+shape+"/receiver-decodes-other-fields", "%s stream %d item %d (%v): %s", dir, s, i, w[i], what)
@@ -502,7 +524,9 @@ func compare(dir string, want, got *model, wantAcks, gotAcks int, blocked, early
 		}
 		if len(g) < len(w) && early && s%2 == 1 {
 			v.Addf("C08/stream-history/"+dir+"-credit-granted-before-first-frame/frames-missing", "%s stream %d (the receiver granted 1 MiB of stream credit right after opening the stream and nothing later): %d of %d items arrived; first missing: %v", dir, s, len(g), len(w), w[len(g)])
-		} else if len(g) < len(w) && silent {
+		} else if len(g) < len(w) && mode == "settings" {
+			v.Addf("C08/stream-history/"+dir+"-window-opened-by-settings-only/frames-missing", "%s stream %d (the receiver made room by raising SETTINGS_INITIAL_WINDOW_SIZE to 1 MiB and sent no WINDOW_UPDATE): %d of %d items arrived; first missing: %v", dir, s, len(g), len(w), w[len(g)])
+		} else if len(g) < len(w) && mode == "none" {
 			v.Addf("C08/stream-history/"+dir+"-window-from-repeated-settings-identifier/frames-missing", "%s stream %d (the receiver announced INITIAL_WINDOW_SIZE twice in one SETTINGS frame, the last value 65 535, and never sends WINDOW_UPDATE): %d of %d items arrived; first missing: %v", dir, s, len(g), len(w), w[len(g)])
 		} else if len(g) < len(w) {
 			v.Addf("C08/stream-history/"+dir+"/frames-missing", "%s stream %d: %d of %d items arrived; first missing: %v", dir, s, len(g), len(w), w[len(g)])
@@ -581,16 +605,17 @@ func initialSettings(w Win, max, table uint32) []h2kit.Setting {
 }
 
 type runner struct {
-	c     Case
-	s     *h2kit.Session
-	bound time.Duration
-	mu    sync.Mutex
-	v     kit.Verdict
-	slow  bool                        // a bounded wait expired
-	sent  map[string]map[uint32][]int // direction -> stream -> wire frames of each header block sent, in order
-	base  int                         // relay loops left behind by earlier cases of this process (stuck for good)
-	calib bool                        // both relay directions were seen running
-	dead  bool                        // a relay direction ended while frames were awaited
+	c      Case
+	s      *h2kit.Session
+	bound  time.Duration
+	mu     sync.Mutex
+	v      kit.Verdict
+	slow   bool                        // a bounded wait expired
+	played map[string]chan struct{}    // direction -> closed when that direction's script has been written
+	sent   map[string]map[uint32][]int // direction -> stream -> wire frames of each header block sent, in order
+	base   int                         // relay loops left behind by earlier cases of this process (stuck for good)
+	calib  bool                        // both relay directions were seen running
+	dead   bool                        // a relay direction ended while frames were awaited
 }
 
 // wait is Endpoint.Wait with the case's bound, cut short when a relay
@@ -668,6 +693,12 @@ func (r *runner) markContinued(dir string, want *model) {
 
 // play writes one endpoint's script, then the barrier frames.
 func (r *runner) play(ep, self *h2kit.Endpoint, dir string, frames []Frame, server bool, sentinel uint32) {
+	scriptDone := false
+	defer func() {
+		if !scriptDone {
+			close(r.played[dir])
+		}
+	}()
 	opened := map[uint32]bool{}
 	for i, f := range frames {
 		if server && f.S%2 == 1 && f.T != "P" && !opened[f.S] {
@@ -725,6 +756,8 @@ func (r *runner) play(ep, self *h2kit.Endpoint, dir string, frames []Frame, serv
 			return
 		}
 	}
+	scriptDone = true
+	close(r.played[dir]) // this endpoint's receiving half may now add its own closing frames
 	ep.WritePing(false, h2kit.MarkerPing(1))
 	// the peer has opened its windows and the relay has seen that
 	if !r.wait(self, func(rec *h2kit.Rec) bool { return rec.HasMarker(2) || rec.Done }) {
@@ -755,6 +788,19 @@ func (r *runner) receive(ep *h2kit.Endpoint, dir string, w Win, want *model, ack
 	if w.Mode == "none" {
 		ids = nil // the window announced at the start covers everything
 	}
+	if w.Mode == "settings" {
+		ids = nil
+		// after this endpoint's own script, so that the order of its SETTINGS frames is fixed
+		other := "s2c"
+		if dir == "s2c" {
+			other = "c2s"
+		}
+		select {
+		case <-r.played[other]:
+		case <-time.After(r.bound):
+		}
+		ep.WriteSettings(finalWindow)
+	}
 	if w.Mode == "step" && len(ids) > 0 {
 		step := w.Step
 		if most/step > 300 {
@@ -773,7 +819,7 @@ func (r *runner) receive(ep *h2kit.Endpoint, dir string, w Win, want *model, ack
 		}
 		ep.WriteWindowUpdate(s, 1<<20)
 	}
-	if w.Mode != "none" {
+	if w.Mode != "none" && w.Mode != "settings" {
 		ep.WriteWindowUpdate(0, 1<<24)
 	}
 	ep.WritePing(false, h2kit.MarkerPing(2))
@@ -782,6 +828,9 @@ func (r *runner) receive(ep *h2kit.Endpoint, dir string, w Win, want *model, ack
 	}
 	r.wait(ep, func(rec *h2kit.Rec) bool { return reached(rec, want, acks) }) // what is missing is reported by the comparison
 }
+
+// finalWindow is what a receiver in mode "settings" announces at the end.
+var finalWindow = h2kit.Setting{ID: 4, Val: 1 << 20}
 
 func countSettings(frames []Frame) int {
 	n := 1 // the initial SETTINGS
@@ -853,12 +902,12 @@ func runOnce(c Case, bound time.Duration, vr variant) (v kit.Verdict, slow bool)
 		}
 	}
 	base := h2kit.RelayLoops()
-	s, err := h2kit.Open(h2kit.Options{Pieces: pieces, Factories: h2kit.Factories(c.Procs), Bound: bound})
+	s, err := h2kit.Open(h2kit.Options{Pieces: pieces, Factories: h2kit.Factories(c.Procs), Bound: bound, DebugLogs: c.Debug})
 	if err != nil {
 		return kit.Failf("C08/session/setup/relay-did-not-connect", "%v", err), true
 	}
 	defer s.Teardown(bound)
-	r := &runner{c: c, s: s, bound: bound, base: base, sent: map[string]map[uint32][]int{}}
+	r := &runner{c: c, s: s, bound: bound, base: base, sent: map[string]map[uint32][]int{}, played: map[string]chan struct{}{"c2s": make(chan struct{}), "s2c": make(chan struct{})}}
 	cl, sv := s.Client, s.Server
 	cl.SetAutoAck(false)
 	sv.SetAutoAck(false)
@@ -908,17 +957,28 @@ func runOnce(c Case, bound time.Duration, vr variant) (v kit.Verdict, slow bool)
 
 	wantAtServer := expected(cInit, c.Client)
 	wantAtClient := expected(sInit, server)
+	wantAtServer.debug, wantAtClient.debug = c.Debug, c.Debug
+	// SETTINGS frames each side sends in all (and gets acknowledged)
+	nClient, nServer := countSettings(c.Client), countSettings(server)
+	if c.CWin.Mode == "settings" {
+		wantAtServer.settings = append(wantAtServer.settings, []h2kit.Setting{finalWindow})
+		nClient++
+	}
+	if c.SWin.Mode == "settings" {
+		wantAtClient.settings = append(wantAtClient.settings, []h2kit.Setting{finalWindow})
+		nServer++
+	}
 	var wg sync.WaitGroup
 	wg.Add(4)
 	go func() { defer wg.Done(); r.play(cl, cl, "c2s", c.Client, false, clientSentinel) }()
 	go func() { defer wg.Done(); r.play(sv, sv, "s2c", server, true, serverSentinel) }()
 	go func() {
 		defer wg.Done()
-		r.receive(sv, "c2s", c.SWin, wantAtServer, countSettings(server), clientSentinel)
+		r.receive(sv, "c2s", c.SWin, wantAtServer, nServer, clientSentinel)
 	}()
 	go func() {
 		defer wg.Done()
-		r.receive(cl, "s2c", c.CWin, wantAtClient, countSettings(c.Client), serverSentinel)
+		r.receive(cl, "s2c", c.CWin, wantAtClient, nClient, serverSentinel)
 	}()
 	wg.Wait()
 	// an endpoint that saw its connection end before the harness closed anything
@@ -961,8 +1021,8 @@ func runOnce(c Case, bound time.Duration, vr variant) (v kit.Verdict, slow bool)
 	sv.With(func(rec *h2kit.Rec) { gotAtServer, acksAtServer = observed(rec), rec.Acks })
 	cl.With(func(rec *h2kit.Rec) { gotAtClient, acksAtClient = observed(rec), rec.Acks })
 	v = r.v
-	v = append(v, compare("c2s", wantAtServer, gotAtServer, countSettings(server), acksAtServer, blockedShape(c.Client, c.SWin), false, c.SWin.Mode == "none")...)
-	v = append(v, compare("s2c", wantAtClient, gotAtClient, countSettings(c.Client), acksAtClient, blockedShape(server, c.CWin), c.CWin.Mode == "early", c.CWin.Mode == "none")...)
+	v = append(v, compare("c2s", wantAtServer, gotAtServer, nServer, acksAtServer, blockedShape(c.Client, c.SWin), false, c.SWin.Mode)...)
+	v = append(v, compare("s2c", wantAtClient, gotAtClient, nClient, acksAtClient, blockedShape(server, c.CWin), c.CWin.Mode == "early", c.CWin.Mode)...)
 	return v, r.slow
 }
 
